@@ -5,8 +5,21 @@ Module-name-typed values are found by provenance (tag NAME of the flow engine), 
   get_parent_modules(..), Parser._get_module_name(..), nodes of the graph (`.nodes`, `arch.modules`), parameters annotated
   Node / AbstractNode / ModuleName, names read from import statements (`alias.name`, `<ImportFrom>.module`), keys of the plot
   `aliases` mapping - and everything these flow into (assignments, containers, calls, fields).
-Operations: startswith / endswith / removeprefix / removesuffix / find / index / rfind / count / replace / partition, `a in b` on strings,
-re.* with a pattern built from a value, slicing by len(other).
+
+Operations (one `Site` each):
+  group "relation"   startswith / endswith / removeprefix / removesuffix / find / index / count / replace / partition with a non-'.' needle,
+                     `a in b` on strings, re.* with a pattern built from a value, slicing by len(other), slicing by an index
+                     (`x[:x.rfind('.')]`, `x[:i]`)
+  group "separator"  the separator of split / partition of a name and of the join of its components; the constants characters of a
+                     name are compared with
+  group "extent"     component-wise comparison through zip (stops at the shorter list: an ancestor of the prefix compares equal)
+
+Verdicts: safe | unsafe | unknown (cannot be classified: the check gives no verdict) | not-name | reviewed | unclassified.
+The classification uses two provers over the value of the *needle*:
+  * `dot_status` (must): follows the value to the expressions it originates from - through locals, loop and comprehension
+    targets, tuple positions, containers and their mutators, fields, parameters (every call site) and return values - and decides
+    whether every origin ends with the separator ('dot') or every origin is a plain name ('bare');
+  * the flow tag DOT (may): a value into which no string ending in '.' was ever concatenated is a plain name.
 """
 
 from __future__ import annotations
@@ -15,11 +28,10 @@ import ast
 from dataclasses import dataclass
 
 from core.flow import Flow, Spec
-from core.guards import atom, conds_formula
 from core.loader import AnalysisError, FuncInfo, Repo, ancestors, calls_in, norm, own_nodes, parent
-from core.types import STR, Types, members
+from core.types import STR, Types, elem_type, members
 
-from .common import conds, dotted, stmt_of, types_of
+from .common import _cache, conds, dotted, stmt_of, types_of
 
 NAME_ANNOTATIONS = {"Node", "AbstractNode", "ModuleName"}
 FILTER_CLASSES = ("ModuleFilter", "ModuleNameFilter", "ParentModuleNameFilter", "Module", "ModuleGroup")
@@ -27,14 +39,13 @@ REGEX_FILTER = "ModuleNameRegexFilter"
 NAME_METHODS = {"importer", "importee", "importer_parent_modules", "importee_parent_modules"}
 NAME_FUNCS = {"get_parent_modules", "_get_module_name", "get_node"}
 STR_REL_METHODS = {"startswith", "endswith", "removeprefix", "removesuffix", "find", "index", "rfind", "rindex", "count", "replace", "partition", "rpartition"}
+SEARCH_METHODS = {"find", "rfind", "index", "rindex"}
+WRAPPERS = {"sorted", "list", "set", "reversed", "tuple", "frozenset", "iter"}
 
-# user-supplied patterns matched against names *by design* (regexes in rules, exclusion patterns): reviewed, one reason per entry
+# user-supplied patterns matched against names *by design* (regexes in rules): normally recognised by the static type of the
+# filter the pattern is read from (ModuleNameRegexFilter); this table is only the fallback for today's names
 REVIEWED_PATTERN_SITES = {
     ("pytestarch.eval_structure.module_name_converter", "ModuleNameConverter._name_matches_pattern"): "have_name_matching(regex): the user's regex is matched against module names by design (C11.R2 fixes the matching function)",
-    ("pytestarch.eval_structure_generation.file_import.file_filter", "FileFilter._"): "exclusion patterns are user-supplied regexes matched against paths / external module names by design (C08.R2)",
-    ("pytestarch.eval_structure_generation.file_import.file_filter", "FileFilter._#1"): "see above (singledispatch registration)",
-    ("pytestarch.eval_structure_generation.file_import.file_filter", "FileFilter._#2"): "see above (singledispatch registration)",
-    ("pytestarch.eval_structure_generation.file_import.file_filter", "FileFilter.__init__"): "compiles the user's exclusion patterns",
 }
 
 
@@ -46,25 +57,111 @@ class Site:
     haystack: ast.expr | None
     needle: ast.expr | None
     name_typed: bool
-    verdict: str  # safe | unsafe | not-name | reviewed | unclassified
+    verdict: str  # safe | unsafe | unknown | not-name | reviewed | unclassified
     why: str
+    group: str = "relation"  # relation | separator | extent
+
+
+# --------------------------------------------------------------------------- small helpers
+
+
+def _const_str(e: ast.AST | None) -> str | None:
+    return e.value if isinstance(e, ast.Constant) and isinstance(e.value, str) else None
+
+
+def _call_name(c: ast.AST) -> str:
+    if not isinstance(c, ast.Call):
+        return ""
+    return c.func.id if isinstance(c.func, ast.Name) else (c.func.attr if isinstance(c.func, ast.Attribute) else "")
+
+
+def _module_constant(repo: Repo, f: FuncInfo, name: str) -> ast.expr | None:
+    """Value of a module-level constant visible under `name` in the module of `f` (own or imported)."""
+    mod = f.module
+    if name in mod.constants:
+        return mod.constants[name]
+    fq = mod.imports.get(name)
+    if fq:
+        m2, _, attr = fq.rpartition(".")
+        om = repo.modules.get(m2)
+        if om is not None and attr in om.constants:
+            return om.constants[attr]
+    return None
+
+
+def _is_local(f: FuncInfo, name: str) -> bool:
+    if name in f.param_names:
+        return True
+    return any(isinstance(n, ast.Name) and n.id == name and isinstance(n.ctx, ast.Store) for n in own_nodes(f.node))
+
+
+def _lambda_iterable(f: FuncInfo) -> ast.expr | None:
+    """The iterable whose elements are bound to the (single) parameter of the lambda `f`: map(lambda, X), sorted(X, key=lambda), ..."""
+    lam = f.node
+    if not isinstance(lam, ast.Lambda) or f.outer is None:
+        return None
+    p = parent(lam)
+    call = parent(p) if isinstance(p, ast.keyword) else p
+    if not isinstance(call, ast.Call):
+        return None
+    nm = _call_name(call)
+    if nm in ("map", "filter") and len(call.args) >= 2 and call.args[0] is lam:
+        return call.args[1]
+    if nm in ("sorted", "min", "max") and call.args and any(k.value is lam for k in call.keywords):
+        return call.args[0]
+    if nm == "sort" and isinstance(call.func, ast.Attribute) and any(k.value is lam for k in call.keywords):
+        return call.func.value
+    if nm in ("takewhile", "dropwhile", "groupby") and len(call.args) >= 2:
+        return call.args[1] if call.args[0] is lam else call.args[0]
+    return None
+
+
+def _clone(e, env: dict[str, ast.expr] | None = None):
+    """Copy of an expression by its fields only (no parent pointers / analysis attributes), loads of names in `env` replaced."""
+    if isinstance(e, list):
+        return [_clone(x, env) for x in e]
+    if not isinstance(e, ast.AST):
+        return e
+    if env and isinstance(e, ast.Name) and isinstance(e.ctx, ast.Load) and e.id in env:
+        return _clone(env[e.id])
+    new = type(e)()
+    for fld in e._fields:
+        if hasattr(e, fld):
+            setattr(new, fld, _clone(getattr(e, fld), env))
+    return new
+
+
+def _substitute(e: ast.expr, env: dict[str, ast.expr]) -> ast.expr:
+    return _clone(e, env)
+
+
+# --------------------------------------------------------------------------- provenance (flow engine)
 
 
 def name_flow(repo: Repo) -> Flow:
+    key = ("name_flow", id(repo))
+    if key in _cache:
+        return _cache[key]
     T = types_of(repo)
 
-    def is_filter_type(f: FuncInfo, e: ast.expr) -> str:
+    def recv_type(f: FuncInfo, e: ast.expr):
         t = T.expr(f, e)
+        if all(m == ("unknown",) for m in members(t)) and isinstance(e, ast.Name) and isinstance(f.node, ast.Lambda) and e.id in f.param_names:
+            it = _lambda_iterable(f)
+            if it is not None:
+                t = elem_type(T.expr(f.outer, it))
+        return t
+
+    def is_filter_type(f: FuncInfo, e: ast.expr) -> str:
+        t = recv_type(f, e)
         kinds = set()
         for m in members(t):
             if m[0] == "cls":
                 n = m[1].rsplit(".", 1)[-1]
                 if n == REGEX_FILTER:
                     kinds.add("regex")
-                elif n in FILTER_CLASSES or n == "Module":
+                elif n in FILTER_CLASSES:
                     kinds.add("name")
-                elif n == "Module" and "diagram" in m[1]:
-                    kinds.add("other")
                 else:
                     kinds.add("other")
             elif m[0] == "unknown":
@@ -76,23 +173,43 @@ def name_flow(repo: Repo) -> Flow:
         return "other"
 
     def sources(f: FuncInfo, e: ast.expr):
+        out: set[str] = set()
         if isinstance(e, ast.Attribute) and isinstance(e.ctx, ast.Load):
             if e.attr in ("identifier", "parent_module"):
                 k = is_filter_type(f, e.value)
-                return {"NAME"} if k == "name" else ({"REGEX"} if k == "regex" else None)
-            if e.attr in ("nodes", "modules") and not (isinstance(parent(e), ast.Call) and parent(e).func is e):
-                return {"NAME"}
-            if e.attr == "name" and f.module.name.endswith("file_import.converter") and isinstance(e.value, ast.Name):
-                return {"NAME"}
-            if e.attr == "module" and f.module.name.endswith("file_import.converter") and isinstance(e.value, ast.Name) and e.value.id == "module":
-                return {"NAME"}
-        if isinstance(e, ast.Call):
+                if k == "name":
+                    out.add("NAME")
+                elif k == "regex":
+                    out.add("REGEX")
+            elif e.attr in ("nodes", "modules") and not (isinstance(parent(e), ast.Call) and parent(e).func is e):
+                out.add("NAME")
+            elif e.attr == "name" and f.module.name.endswith("file_import.converter") and isinstance(e.value, ast.Name):
+                out.add("NAME")
+            elif e.attr == "module" and f.module.name.endswith("file_import.converter") and isinstance(e.value, ast.Name) and e.value.id == "module":
+                out.add("NAME")
+        elif isinstance(e, ast.Call):
             fn = e.func
             if isinstance(fn, ast.Attribute) and fn.attr in NAME_METHODS and not e.args:
-                return {"NAME"}
-            if (isinstance(fn, ast.Name) and fn.id in NAME_FUNCS) or (isinstance(fn, ast.Attribute) and fn.attr in NAME_FUNCS):
-                return {"NAME"}
-        return None
+                out.add("NAME")
+            elif (isinstance(fn, ast.Name) and fn.id in NAME_FUNCS) or (isinstance(fn, ast.Attribute) and fn.attr in NAME_FUNCS):
+                out.add("NAME")
+        elif isinstance(e, ast.Constant):
+            if isinstance(e.value, str) and e.value.endswith("."):
+                out.add("DOT")
+        elif isinstance(e, ast.JoinedStr):
+            if e.values and isinstance(e.values[-1], ast.Constant) and str(e.values[-1].value).endswith("."):
+                out.add("DOT")
+        elif isinstance(e, ast.Name) and isinstance(e.ctx, ast.Load):
+            c = None
+            if not isinstance(f.node, ast.Lambda) and e.id in f.param_names:
+                p = next(p for p in f.params if p.arg == e.id)
+                c = T._default_of(f, p)
+            elif not _is_local(f, e.id) and (f.outer is None or not _is_local(f.outer, e.id)):
+                c = _module_constant(repo, f, e.id)
+            s = _const_str(c)
+            if s is not None and s.endswith("."):
+                out.add("DOT")
+        return out or None
 
     seeds: dict[tuple[str, str], set[str]] = {}
     for f in repo.all_functions():
@@ -108,34 +225,43 @@ def name_flow(repo: Repo) -> Flow:
 
     def transfer(f: FuncInfo, call: ast.Call, names, args, recv, kwargs):
         fn = call.func
-        if isinstance(fn, ast.Name) and fn.id in ("len", "isinstance", "hasattr", "bool", "sorted") and fn.id != "sorted":
+        if isinstance(fn, ast.Name) and fn.id in ("len", "isinstance", "hasattr", "bool", "range", "int"):
             return set()
-        if (repo.resolve_name(f.module, fn) or "") == "re.escape" if isinstance(fn, (ast.Name, ast.Attribute)) else False:
+        if isinstance(fn, (ast.Name, ast.Attribute)) and (repo.resolve_name(f.module, fn) or "") == "re.escape":
             out = set()
             for a in args:
                 out |= set(a)
-            return {("ESC:" + t) if not t.startswith("ESC:") else t for t in out}
+            return {("ESC:" + t) if not t.startswith("ESC:") else t for t in out if t != "DOT"}
+        if isinstance(fn, ast.Attribute) and not names:
+            a = fn.attr
+            dot_arg = bool(call.args) and _const_str(call.args[0]) is not None and "." in _const_str(call.args[0])
+            if a in ("split", "rsplit"):
+                out = set(recv) - {"DOT"}
+                if dot_arg and len(call.args) == 1 and not call.keywords:
+                    out |= {"PARTS"}
+                return out
+            if a in ("partition", "rpartition"):
+                return set(recv) - {"DOT"}
+            if a == "join":
+                out = set()
+                for x in args:
+                    out |= set(x)
+                return out - {"PARTS", "COMP"}
+            if a in ("rstrip", "strip", "removesuffix") and dot_arg:
+                return set(recv) - {"DOT"}
+            if a in ("rstrip", "strip", "lstrip", "lower", "upper", "casefold", "removeprefix", "removesuffix", "replace", "title", "capitalize"):
+                return set(recv)
+            if a in ("startswith", "endswith", "count", "find", "rfind", "index", "rindex", "isidentifier", "isalnum", "isalpha", "isdigit", "islower", "isupper"):
+                return set()
         return None
 
-    return Flow(repo, T, Spec(sources=sources, transfer=transfer, param_seeds=seeds, objects_carry=False))
-
-
-def _ends_with_dot_old(repo: Repo, f: FuncInfo, e: ast.expr, depth: int = 0) -> bool:
-    """(superseded by dot_status)"""
-    if depth > 4:
-        return False
-    if isinstance(e, ast.Constant):
-        return isinstance(e.value, str) and e.value.endswith(".")
-    if isinstance(e, ast.JoinedStr):
-        return bool(e.values) and isinstance(e.values[-1], ast.Constant) and str(e.values[-1].value).endswith(".")
-    if isinstance(e, ast.BinOp) and isinstance(e.op, ast.Add):
-        return _ends_with_dot_old(repo, f, e.right, depth + 1)
-    if isinstance(e, ast.Name) and not isinstance(f.node, ast.Lambda):
-        assigns = [n for n in own_nodes(f.node) if isinstance(n, ast.Assign) and any(isinstance(t, ast.Name) and t.id == e.id for t in n.targets)]
-        aug = [n for n in own_nodes(f.node) if isinstance(n, ast.AugAssign) and isinstance(n.target, ast.Name) and n.target.id == e.id]
-        if len(assigns) == 1 and not aug and e.id not in f.param_names:
-            return _ends_with_dot_old(repo, f, assigns[0].value, depth + 1)
-    return False
+    fl = Flow(
+        repo,
+        T,
+        Spec(sources=sources, transfer=transfer, param_seeds=seeds, objects_carry=False, iter_map={"PARTS": "COMP"}, collect_map={"COMP": "PARTS"}),
+    )
+    _cache[key] = fl
+    return fl
 
 
 def _is_str(T: Types, f: FuncInfo, e: ast.expr) -> bool | None:
@@ -153,36 +279,37 @@ def _is_str(T: Types, f: FuncInfo, e: ast.expr) -> bool | None:
                     sides = [n.left, n.comparators[0]]
                     if any(isinstance(x, ast.Name) and x.id == e.id for x in sides) and any(isinstance(x, ast.Attribute) and x.attr in ("identifier", "name") for x in sides):
                         return True
+                if isinstance(n, ast.Call) and isinstance(n.func, ast.Attribute) and n.func.attr in ("startswith", "endswith", "split", "rsplit", "rfind", "rpartition", "partition") and isinstance(n.func.value, ast.Name) and n.func.value.id == e.id:
+                    return True
         return None
     return False
 
 
 def _boundary_companion(f: FuncInfo, call: ast.AST, hay: ast.expr, needle: ast.expr) -> bool:
-    """An adjacent conjunct/disjunct checks the character after the prefix: x[len(p)] == "." / x[len(p):len(p)+1] in ("", ".")."""
+    """An adjacent conjunct checks the character after the prefix: x[len(p)] == "." / x[len(p):len(p)+1] in ("", ".")."""
     p = parent(call)
     while isinstance(p, ast.UnaryOp):
         p = parent(p)
-    if not isinstance(p, ast.BoolOp):
+    if not (isinstance(p, ast.BoolOp) and isinstance(p.op, ast.And)):
         return False
     h, n = norm(hay), norm(needle)
     for v in p.values:
         for c in ast.walk(v):
-            if isinstance(c, ast.Compare) and isinstance(c.left, ast.Subscript) and norm(c.left.value) == h and f"len({n})" in norm(c.left.slice):
-                if any(isinstance(x, ast.Constant) and x.value == "." for x in ast.walk(c)):
+            if isinstance(c, ast.Compare) and len(c.ops) == 1 and isinstance(c.left, ast.Subscript) and norm(c.left.value) == h and f"len({n})" in norm(c.left.slice):
+                r = c.comparators[0]
+                if isinstance(c.ops[0], ast.Eq) and _const_str(r) == "." and not isinstance(c.left.slice, ast.Slice):
+                    return True  # x[len(p)] == "."  (raises / is false when nothing follows: combined with `x == p or ...` by the author)
+                if isinstance(c.ops[0], ast.In) and isinstance(r, (ast.Tuple, ast.List, ast.Set)) and sorted(str(_const_str(x)) for x in r.elts) == ["", "."]:
                     return True
     return False
 
 
+# --------------------------------------------------------------------------- call sites
 
-# --------------------------------------------------------------------------- provers used by the classification
 
-
-def _callers_args(repo: Repo, f: FuncInfo, param: str) -> list[tuple[FuncInfo, ast.expr]] | None:
-    """Argument expressions bound to `param` at every resolved call site of `f` (None if a site cannot be matched)."""
+def _call_index(repo: Repo) -> dict[str, list[tuple[FuncInfo, ast.Call]]]:
     T = types_of(repo)
     key = ("callsites", id(repo))
-    from .common import _cache
-
     if key not in _cache:
         idx: dict[str, list[tuple[FuncInfo, ast.Call]]] = {}
         for g in repo.all_functions():
@@ -193,37 +320,498 @@ def _callers_args(repo: Repo, f: FuncInfo, param: str) -> list[tuple[FuncInfo, a
                     cs = []
                 for callee in cs:
                     idx.setdefault(callee.fq, []).append((g, c))
+                # functools.partial(f, ...) / map(f, xs): the function object is handed on, the call happens elsewhere
+            for n in own_nodes(g.node):
+                if isinstance(n, ast.Call) and _call_name(n) in ("partial", "map", "filter"):
+                    for a in n.args[:1]:
+                        t = T.expr(g, a)
+                        for m in members(t):
+                            if m[0] == "fn":
+                                idx.setdefault(m[1].fq, []).append((g, n))
         _cache[key] = idx
-    sites = _cache[key].get(f.fq, [])
-    if not sites:
-        return None
-    names_ = f.param_names
-    pos = list(names_)
+    return _cache[key]
+
+
+def _positional(f: FuncInfo) -> list[str]:
+    pos = list(f.param_names)
     if f.cls is not None and f.outer is None and not f.is_staticmethod and pos:
         pos = pos[1:]
+    return pos
+
+
+def _callers_args(repo: Repo, f: FuncInfo, param: str) -> list[tuple[FuncInfo, ast.expr]] | None:
+    """Argument expressions bound to `param` at every resolved call site of `f` (None if there is none or a site cannot be matched).
+
+    A `map(f, xs)` site yields the pseudo expression `next(iter(xs))`-like marker: (g, ast.Starred(xs)) meaning "an element of xs"."""
+    sites = _call_index(repo).get(f.fq, [])
+    if not sites:
+        return None
+    pos = _positional(f)
     out = []
     for g, c in sites:
         expr = None
-        for k in c.keywords:
-            if k.arg == param:
-                expr = k.value
-        if expr is None and param in pos:
-            i = pos.index(param)
-            if i < len(c.args) and not any(isinstance(a, ast.Starred) for a in c.args[: i + 1]):
-                expr = c.args[i]
+        nm = _call_name(c)
+        direct = True
+        if nm in ("map", "filter") and c.args and not (isinstance(c.func, ast.Attribute) and c.func.attr not in ("map", "filter")):
+            t = types_of(repo).expr(g, c.args[0])
+            if any(m[0] == "fn" and m[1].fq == f.fq for m in members(t)):
+                direct = False
+                i = pos.index(param) if param in pos else -1
+                if 0 <= i < len(c.args) - 1:
+                    expr = ast.Starred(value=c.args[1 + i], ctx=ast.Load())
+        elif nm == "partial" and c.args:
+            t = types_of(repo).expr(g, c.args[0])
+            if any(m[0] == "fn" and m[1].fq == f.fq for m in members(t)):
+                direct = False
+                for k in c.keywords:
+                    if k.arg == param:
+                        expr = k.value
+                if expr is None:
+                    i = pos.index(param) if param in pos else -1
+                    if 0 <= i < len(c.args) - 1:
+                        expr = c.args[1 + i]
+                if expr is None:
+                    continue  # bound later, at the call of the partial object: not visible here
+        if direct:
+            for k in c.keywords:
+                if k.arg == param:
+                    expr = k.value
+            if expr is None and param in pos:
+                i = pos.index(param)
+                if i < len(c.args) and not any(isinstance(a, ast.Starred) for a in c.args[: i + 1]):
+                    expr = c.args[i]
         if expr is None:
             return None
         out.append((g, expr))
-    return out
+    return out or None
 
 
-def dot_status(repo: Repo, f: FuncInfo, e: ast.expr, depth: int = 0) -> str:
-    """'dot'  - the string provably ends with '.',
-    'bare' - it provably is a plain module name (no separator appended),
-    'unknown' otherwise."""
-    if depth > 5:
+# --------------------------------------------------------------------------- origins of a value (must analysis)
+
+Leaf = tuple  # (FuncInfo, ast.expr, "value" | "elem")
+
+
+class Origins:
+    """Expressions a value originates from. A leaf is (function, expression, kind): kind 'value' = the value of the expression,
+    'elem' = an element of the collection denoted by the expression (which could not be opened further)."""
+
+    MAX = 10
+
+    def __init__(self, repo: Repo) -> None:
+        self.repo = repo
+        self.T = types_of(repo)
+
+    # -- bindings of a local name: list of ("value", expr) | ("elem", iterable, pos) | ("opaque", node)
+    def _bindings(self, f: FuncInfo, name: str) -> list[tuple]:
+        out: list[tuple] = []
+        if isinstance(f.node, ast.Lambda):
+            return out
+
+        def bind_target(tgt: ast.expr, kind: str, src: ast.expr, pos: tuple) -> None:
+            if isinstance(tgt, ast.Name):
+                if tgt.id == name:
+                    out.append((kind, src, pos))
+            elif isinstance(tgt, (ast.Tuple, ast.List)):
+                for i, el in enumerate(tgt.elts):
+                    if isinstance(el, ast.Starred):
+                        if any(isinstance(x, ast.Name) and x.id == name for x in ast.walk(el)):
+                            out.append(("opaque", src, ()))
+                    else:
+                        bind_target(el, kind, src, pos + (i,))
+
+        for n in own_nodes(f.node):
+            if isinstance(n, ast.Assign):
+                for t in n.targets:
+                    bind_target(t, "value", n.value, ())
+            elif isinstance(n, ast.AnnAssign) and n.value is not None:
+                bind_target(n.target, "value", n.value, ())
+            elif isinstance(n, ast.AugAssign):
+                if isinstance(n.target, ast.Name) and n.target.id == name:
+                    out.append(("value", ast.BinOp(left=ast.Name(id="<prev>", ctx=ast.Load()), op=n.op, right=n.value), ()))
+            elif isinstance(n, (ast.For, ast.AsyncFor)):
+                bind_target(n.target, "elem", n.iter, ())
+            elif isinstance(n, ast.comprehension):
+                bind_target(n.target, "elem", n.iter, ())
+            elif isinstance(n, ast.NamedExpr):
+                bind_target(n.target, "value", n.value, ())
+            elif isinstance(n, (ast.With, ast.AsyncWith)):
+                for it in n.items:
+                    if it.optional_vars is not None and any(isinstance(x, ast.Name) and x.id == name for x in ast.walk(it.optional_vars)):
+                        out.append(("opaque", it.context_expr, ()))
+            elif isinstance(n, ast.ExceptHandler) and n.name == name:
+                out.append(("opaque", n, ()))
+        return out
+
+    def value(self, f: FuncInfo, e: ast.expr, depth: int = 0, seen: frozenset = frozenset(), pos: tuple = ()) -> list[Leaf]:
+        """Leaves of the value of `e` (position `pos` of it, if it is a tuple)."""
+        key = (f.fq, id(e), "v", pos)
+        if depth > self.MAX or key in seen:
+            return [(f, e, "value")] if not pos else [(f, e, "opaque")]
+        seen = seen | {key}
+        d = depth + 1
+        if pos:
+            if isinstance(e, (ast.Tuple, ast.List)) and not any(isinstance(x, ast.Starred) for x in e.elts) and pos[0] < len(e.elts):
+                return self.value(f, e.elts[pos[0]], d, seen, pos[1:])
+            if not isinstance(e, (ast.Name, ast.Call, ast.IfExp, ast.Attribute, ast.Subscript)):
+                return [(f, e, "opaque")]
+        if isinstance(e, ast.Starred):  # marker of _callers_args: an element of the collection
+            return self.elements(f, e.value, d, seen, pos)
+        if isinstance(e, ast.IfExp):
+            return self.value(f, e.body, d, seen, pos) + self.value(f, e.orelse, d, seen, pos)
+        if isinstance(e, ast.BoolOp) and isinstance(e.op, ast.Or) and not pos:
+            out = []
+            for v in e.values:
+                out += self.value(f, v, d, seen)
+            return out
+        if isinstance(e, ast.NamedExpr):
+            return self.value(f, e.value, d, seen, pos)
+        if isinstance(e, ast.Name):
+            return self._name(f, e, d, seen, pos)
+        if isinstance(e, ast.Attribute):
+            if isinstance(e.value, ast.Name) and e.value.id in ("self", "cls") and f.cls is not None:
+                vals = self._field_assignments(f, e.attr)
+                if vals:
+                    out = []
+                    for m, v in vals:
+                        out += self.value(m, v, d, seen, pos)
+                    return out
+            return [(f, e, "value" if not pos else "opaque")]
+        if isinstance(e, ast.Call):
+            nm = _call_name(e)
+            if isinstance(e.func, ast.Name) and nm == "str" and len(e.args) == 1:
+                return self.value(f, e.args[0], d, seen, pos)
+            if isinstance(e.func, ast.Name) and nm == "next" and e.args:
+                out = self.elements(f, e.args[0], d, seen, pos)
+                if len(e.args) > 1:
+                    out = out + self.value(f, e.args[1], d, seen, pos)
+                return out
+            if isinstance(e.func, ast.Name) and nm in ("min", "max") and len(e.args) == 1:
+                return self.elements(f, e.args[0], d, seen, pos)
+            if isinstance(e.func, ast.Attribute) and nm in ("pop", "popleft") and not e.keywords and len(e.args) <= 1 and not self._is_dict(f, e.func.value):
+                return self.elements(f, e.func.value, d, seen, pos)
+            cs = self._callees(f, e)
+            if cs:
+                out = []
+                for g in cs:
+                    rets = self._returns(g)
+                    if not rets:
+                        return [(f, e, "value" if not pos else "opaque")]
+                    for r in rets:
+                        out += self.value(g, r, d, seen, pos)
+                return out
+            return [(f, e, "value" if not pos else "opaque")]
+        if isinstance(e, ast.Subscript) and not isinstance(e.slice, ast.Slice):
+            if self._is_dict(f, e.value):
+                return [(f, e, "value" if not pos else "opaque")]
+            if isinstance(e.slice, ast.Constant) and isinstance(e.slice.value, int) and isinstance(e.value, (ast.Tuple, ast.List)):
+                return self.value(f, e.value, d, seen, (e.slice.value,) + pos) if e.slice.value >= 0 else [(f, e, "value")]
+            # element of a sequence (by position): one of its elements; a constant index into a tuple-valued thing selects a position
+            if isinstance(e.slice, ast.Constant) and isinstance(e.slice.value, int) and e.slice.value >= 0 and self._is_tuple(f, e.value):
+                return self.value(f, e.value, d, seen, (e.slice.value,) + pos)
+            return self.elements(f, e.value, d, seen, pos)
+        return [(f, e, "value" if not pos else "opaque")]
+
+    def _is_dict(self, f: FuncInfo, e: ast.expr) -> bool:
+        t = self.T.expr(f, e)
+        return any(m[0] == "b" and m[1] == "dict" for m in members(t))
+
+    def _is_tuple(self, f: FuncInfo, e: ast.expr) -> bool:
+        t = self.T.expr(f, e)
+        ms = members(t)
+        return bool(ms) and all(m[0] == "b" and m[1] == "tuple" for m in ms)
+
+    def _callees(self, f: FuncInfo, call: ast.Call) -> list[FuncInfo]:
+        try:
+            cs, how = self.T.callees(f, call, byname_fallback=False)
+        except Exception:  # noqa: BLE001
+            return []
+        if how not in ("repo",):
+            return []
+        return [c for c in cs if not c.is_abstract]
+
+    @staticmethod
+    def _returns(g: FuncInfo) -> list[ast.expr]:
+        if isinstance(g.node, ast.Lambda):
+            return [g.node.body]
+        if any(isinstance(n, (ast.Yield, ast.YieldFrom)) for n in own_nodes(g.node)):
+            return []
+        return [r.value for r in own_nodes(g.node) if isinstance(r, ast.Return) and r.value is not None]
+
+    def _field_assignments(self, f: FuncInfo, attr: str) -> list[tuple[FuncInfo, ast.expr]]:
+        out = []
+        classes = [*self.repo.mro(f.cls), *self.repo.subclasses(f.cls)] if f.cls is not None else []
+        seen = set()
+        for ci in classes:
+            if ci.fq in seen:
+                continue
+            seen.add(ci.fq)
+            for m in [*ci.methods.values(), *ci.extra_methods]:
+                for n in own_nodes(m.node):
+                    if isinstance(n, (ast.Assign, ast.AnnAssign)) and getattr(n, "value", None) is not None:
+                        for t in n.targets if isinstance(n, ast.Assign) else [n.target]:
+                            if isinstance(t, ast.Attribute) and isinstance(t.value, ast.Name) and t.value.id in ("self", "cls") and t.attr == attr:
+                                out.append((m, n.value))
+            if attr in ci.class_attrs:
+                out.append((next(iter(ci.methods.values()), f), ci.class_attrs[attr]))
+        return out
+
+    def _name(self, f: FuncInfo, e: ast.Name, d: int, seen: frozenset, pos: tuple) -> list[Leaf]:
+        name = e.id
+        opaque = [(f, e, "value" if not pos else "opaque")]
+        if isinstance(f.node, ast.Lambda):
+            if name in f.param_names:
+                it = _lambda_iterable(f)
+                if it is not None and f.outer is not None and len(f.param_names) == 1:
+                    return self.elements(f.outer, it, d, seen, pos)
+                return opaque
+            return self._name(f.outer, e, d, seen, pos) if f.outer is not None else opaque
+        binds = self._bindings(f, name)
+        if name in f.param_names:
+            if binds:
+                return opaque  # re-bound parameter: flow-insensitive view is not sound enough here
+            args = _callers_args(self.repo, f, name)
+            if not args:
+                return opaque
+            out = []
+            for g, a in args:
+                out += self.value(g, a, d, seen, pos)
+            return out
+        if not binds:
+            if f.outer is not None:
+                return self._name(f.outer, e, d, seen, pos)
+            c = _module_constant(self.repo, f, name)
+            if c is not None:
+                return [(f, c, "value")]
+            return opaque
+        out = []
+        for kind, src, p in binds:
+            if kind == "value":
+                if isinstance(src, ast.BinOp) and isinstance(src.left, ast.Name) and src.left.id == "<prev>":
+                    out.append((f, src, "value"))
+                else:
+                    out += self.value(f, src, d, seen, p + pos)
+            elif kind == "elem":
+                out += self.elements(f, src, d, seen, p + pos)
+            else:
+                out.append((f, src if isinstance(src, ast.expr) else e, "opaque"))
+        return out
+
+    def elements(self, f: FuncInfo, c: ast.expr, depth: int = 0, seen: frozenset = frozenset(), pos: tuple = ()) -> list[Leaf]:
+        """Leaves of the elements of the collection `c` (position `pos` of each element, if elements are tuples)."""
+        key = (f.fq, id(c), "e", pos)
+        if depth > self.MAX or key in seen:
+            return [(f, c, "elem" if not pos else "opaque")]
+        seen = seen | {key}
+        d = depth + 1
+        stop = [(f, c, "elem" if not pos else "opaque")]
+        if isinstance(c, ast.Starred):
+            return self.elements(f, c.value, d, seen, pos)
+        if isinstance(c, (ast.List, ast.Tuple, ast.Set)):
+            out = []
+            for el in c.elts:
+                out += self.elements(f, el.value, d, seen, pos) if isinstance(el, ast.Starred) else self.value(f, el, d, seen, pos)
+            return out
+        if isinstance(c, ast.Dict):
+            out = []
+            for k in c.keys:
+                if k is None:
+                    return stop
+                out += self.value(f, k, d, seen, pos)
+            return out
+        if isinstance(c, (ast.ListComp, ast.SetComp, ast.GeneratorExp)):
+            return self.value(f, c.elt, d, seen, pos)
+        if isinstance(c, ast.DictComp):
+            return self.value(f, c.key, d, seen, pos)
+        if isinstance(c, ast.BinOp) and isinstance(c.op, (ast.Add, ast.BitOr)):
+            return self.elements(f, c.left, d, seen, pos) + self.elements(f, c.right, d, seen, pos)
+        if isinstance(c, ast.IfExp):
+            return self.elements(f, c.body, d, seen, pos) + self.elements(f, c.orelse, d, seen, pos)
+        if isinstance(c, ast.BoolOp) and isinstance(c.op, ast.Or):
+            out = []
+            for v in c.values:
+                out += self.elements(f, v, d, seen, pos)
+            return out
+        if isinstance(c, ast.Subscript):
+            if isinstance(c.slice, ast.Slice):
+                return self.elements(f, c.value, d, seen, pos)
+            return stop
+        if isinstance(c, ast.Call):
+            nm = _call_name(c)
+            if isinstance(c.func, ast.Name):
+                if nm in WRAPPERS and c.args:
+                    return self.elements(f, c.args[0], d, seen, pos)
+                if nm == "enumerate" and c.args:
+                    if pos and pos[0] == 1:
+                        return self.elements(f, c.args[0], d, seen, pos[1:])
+                    return [(f, c, "opaque")]
+                if nm == "zip" and c.args:
+                    if pos and pos[0] < len(c.args):
+                        return self.elements(f, c.args[pos[0]], d, seen, pos[1:])
+                    return [(f, c, "opaque")]
+                if nm == "filter" and len(c.args) == 2:
+                    return self.elements(f, c.args[1], d, seen, pos)
+                if nm == "map" and len(c.args) == 2:
+                    fn = c.args[0]
+                    lf = getattr(fn, "_func", None) if isinstance(fn, ast.Lambda) else None
+                    if lf is not None:
+                        return self.value(lf, fn.body, d, seen, pos)
+                    t = self.T.expr(f, fn)
+                    fns = [m[1] for m in members(t) if m[0] == "fn"]
+                    if fns and len(fns) == len(members(t)):
+                        out = []
+                        for g in fns:
+                            rets = self._returns(g)
+                            if not rets:
+                                return stop
+                            for r in rets:
+                                out += self.value(g, r, d, seen, pos)
+                        return out
+                    return stop
+            if isinstance(c.func, ast.Attribute):
+                if nm == "keys" and not c.args:
+                    return self.elements(f, c.func.value, d, seen, pos)
+                if nm == "items" and not c.args:
+                    if pos and pos[0] == 0:
+                        return self.elements(f, c.func.value, d, seen, pos[1:])
+                    return [(f, c, "opaque")]
+                if nm in ("values",) and not c.args:
+                    return [(f, c, "opaque")]
+                if nm in ("copy", "union", "difference", "intersection") and isinstance(c.func.value, (ast.Name, ast.Attribute)):
+                    out = self.elements(f, c.func.value, d, seen, pos)
+                    if nm == "union":
+                        for a in c.args:
+                            out += self.elements(f, a, d, seen, pos)
+                    return out
+            cs = self._callees(f, c)
+            if cs:
+                out = []
+                for g in cs:
+                    ys = [n for n in own_nodes(g.node) if isinstance(n, (ast.Yield, ast.YieldFrom))] if not isinstance(g.node, ast.Lambda) else []
+                    if ys:
+                        for y in ys:
+                            if isinstance(y, ast.Yield) and y.value is not None:
+                                out += self.value(g, y.value, d, seen, pos)
+                            elif isinstance(y, ast.YieldFrom):
+                                out += self.elements(g, y.value, d, seen, pos)
+                        continue
+                    rets = self._returns(g)
+                    if not rets:
+                        return stop
+                    for r in rets:
+                        out += self.elements(g, r, d, seen, pos)
+                return out
+            return stop
+        if isinstance(c, ast.Attribute):
+            if isinstance(c.value, ast.Name) and c.value.id in ("self", "cls") and f.cls is not None:
+                vals = self._field_assignments(f, c.attr)
+                if vals:
+                    out = []
+                    for m, v in vals:
+                        out += self.elements(m, v, d, seen, pos)
+                    out += self._mutations(f, c, d, seen, pos, field=c.attr)
+                    return out
+            return stop
+        if isinstance(c, ast.Name):
+            name = c.id
+            if isinstance(f.node, ast.Lambda):
+                if name in f.param_names:
+                    return stop
+                return self.elements(f.outer, c, d, seen, pos) if f.outer is not None else stop
+            binds = self._bindings(f, name)
+            if name in f.param_names:
+                if binds:
+                    return stop
+                args = _callers_args(self.repo, f, name)
+                if not args:
+                    return stop
+                out = []
+                for g, a in args:
+                    if isinstance(a, ast.Starred):
+                        return stop
+                    out += self.elements(g, a, d, seen, pos)
+                return out + self._mutations(f, c, d, seen, pos)
+            if not binds:
+                if f.outer is not None:
+                    return self.elements(f.outer, c, d, seen, pos)
+                k = _module_constant(self.repo, f, name)
+                if k is not None:
+                    return self.elements(f, k, d, seen, pos)
+                return stop
+            out = []
+            for kind, src, p in binds:
+                if kind == "value" and not p:
+                    if isinstance(src, ast.BinOp) and isinstance(src.left, ast.Name) and src.left.id == "<prev>":
+                        out += self.elements(f, src.right, d, seen, pos)
+                    else:
+                        out += self.elements(f, src, d, seen, pos)
+                else:
+                    return stop
+            return out + self._mutations(f, c, d, seen, pos)
+        return stop
+
+    def _mutations(self, f: FuncInfo, c: ast.expr, d: int, seen: frozenset, pos: tuple, field: str | None = None) -> list[Leaf]:
+        """Elements added to the collection `c` (a local name, or the field self.<field> anywhere in the class) by mutator calls."""
+        out: list[Leaf] = []
+        text = norm(c)
+        scopes: list[FuncInfo] = [f]
+        if field is not None and f.cls is not None:
+            scopes = [m for ci in [*self.repo.mro(f.cls), *self.repo.subclasses(f.cls)] for m in [*ci.methods.values(), *ci.extra_methods]]
+        for g in scopes:
+            if isinstance(g.node, ast.Lambda):
+                continue
+            for n in own_nodes(g.node):
+                if isinstance(n, ast.Call) and isinstance(n.func, ast.Attribute) and norm(n.func.value) == text and n.args:
+                    a = n.func.attr
+                    if a in ("append", "add", "appendleft"):
+                        out += self.value(g, n.args[0], d, seen, pos)
+                    elif a == "insert" and len(n.args) == 2:
+                        out += self.value(g, n.args[1], d, seen, pos)
+                    elif a in ("extend", "update", "extendleft"):
+                        out += self.elements(g, n.args[0], d, seen, pos)
+                    elif a == "setdefault":
+                        out += self.value(g, n.args[0], d, seen, pos)
+                elif isinstance(n, (ast.Assign, ast.AugAssign, ast.AnnAssign)):
+                    for t in n.targets if isinstance(n, ast.Assign) else [n.target]:
+                        if isinstance(t, ast.Subscript) and norm(t.value) == text and not isinstance(t.slice, ast.Slice):
+                            out += self.value(g, t.slice, d, seen, pos)  # d[k] = v: iterating d yields k
+                        if isinstance(n, ast.AugAssign) and field is not None and norm(t) == text:
+                            out += self.elements(g, n.value, d, seen, pos)
+        return out
+
+
+def origins(repo: Repo) -> Origins:
+    key = ("origins", id(repo))
+    if key not in _cache:
+        _cache[key] = Origins(repo)
+    return _cache[key]
+
+
+# --------------------------------------------------------------------------- does a string end with the separator?
+
+
+def _leaf_status(repo: Repo, g: FuncInfo, e: ast.expr, kind: str, depth: int) -> str:
+    """'dot' | 'bare' | 'unknown' for one origin."""
+    if kind == "opaque":
+        return "unknown"
+    if kind == "elem":
+        # an element of a collection that could not be opened: collections of names / components hold plain names
+        x = e
+        while isinstance(x, ast.Call) and isinstance(x.func, ast.Name) and x.func.id in WRAPPERS and x.args:
+            x = x.args[0]
+        if isinstance(x, ast.Call):
+            nm = _call_name(x)
+            if nm in NAME_METHODS or nm in NAME_FUNCS:
+                return "bare"
+            if nm in ("split", "rsplit") and x.args and _const_str(x.args[0]) == ".":
+                return "bare"
+            if nm in ("keys",):
+                x = x.func.value if isinstance(x.func, ast.Attribute) else x
+        if isinstance(x, ast.Attribute) and x.attr in ("nodes", "modules"):
+            return "bare"
         return "unknown"
     if isinstance(e, ast.Constant):
+        if e.value is None:
+            return "none"
         return "dot" if isinstance(e.value, str) and e.value.endswith(".") else "bare"
     if isinstance(e, ast.JoinedStr):
         if not e.values:
@@ -232,123 +820,162 @@ def dot_status(repo: Repo, f: FuncInfo, e: ast.expr, depth: int = 0) -> str:
         if isinstance(last, ast.Constant):
             return "dot" if str(last.value).endswith(".") else "bare"
         if isinstance(last, ast.FormattedValue):
-            return dot_status(repo, f, last.value, depth + 1)
+            return dot_status(repo, g, last.value, depth + 1)
         return "unknown"
     if isinstance(e, ast.BinOp) and isinstance(e.op, ast.Add):
-        return dot_status(repo, f, e.right, depth + 1)
-    if isinstance(e, ast.IfExp):
-        a, b = dot_status(repo, f, e.body, depth + 1), dot_status(repo, f, e.orelse, depth + 1)
-        return a if a == b else "unknown"
+        return dot_status(repo, g, e.right, depth + 1)
+    if isinstance(e, ast.BinOp) and isinstance(e.op, ast.Mod) and _const_str(e.left) is not None:
+        s = _const_str(e.left)
+        if s.endswith("."):
+            return "dot"
+        return "unknown" if s.endswith(("%s", "%r")) else "bare"
     if isinstance(e, ast.Attribute):
         if e.attr in ("identifier", "parent_module", "name", "module"):
             return "bare"
-        if isinstance(e.value, ast.Name) and e.value.id == "self" and f.cls is not None:
-            vals = []
-            for m in f.cls.methods.values():
-                for n in own_nodes(m.node):
-                    if isinstance(n, ast.Assign):
-                        for t in n.targets:
-                            if isinstance(t, ast.Attribute) and isinstance(t.value, ast.Name) and t.value.id == "self" and t.attr == e.attr:
-                                vals.append(dot_status(repo, m, n.value, depth + 1))
-            if vals and len(set(vals)) == 1:
-                return vals[0]
         return "unknown"
     if isinstance(e, ast.Call):
         fn = e.func
-        if isinstance(fn, ast.Attribute) and fn.attr in NAME_METHODS and not e.args:
+        nm = _call_name(e)
+        if isinstance(fn, ast.Attribute) and nm in NAME_METHODS and not e.args:
             return "bare"
-        if (isinstance(fn, ast.Name) and fn.id in NAME_FUNCS) or (isinstance(fn, ast.Attribute) and fn.attr in NAME_FUNCS):
+        if nm in NAME_FUNCS:
             return "bare"
-        if isinstance(fn, ast.Attribute) and fn.attr in ("rstrip", "strip") and e.args and isinstance(e.args[0], ast.Constant) and "." in str(e.args[0].value):
+        if isinstance(fn, ast.Attribute) and nm in ("rstrip", "strip", "removesuffix") and e.args and "." in (_const_str(e.args[0]) or ""):
             return "bare"
-        if isinstance(fn, ast.Name) and fn.id == "str" and len(e.args) == 1:
-            return dot_status(repo, f, e.args[0], depth + 1)
-        T = types_of(repo)
-        try:
-            cs, how = T.callees(f, e, byname_fallback=False)
-        except Exception:  # noqa: BLE001
-            cs, how = [], ""
-        if len(cs) == 1 and how == "repo":
-            rets = [r for r in own_nodes(cs[0].node) if isinstance(r, ast.Return) and r.value is not None]
-            vals = {dot_status(repo, cs[0], r.value, depth + 1) for r in rets}
-            if len(vals) == 1:
-                return vals.pop()
+        if isinstance(fn, ast.Attribute) and nm == "join":
+            return "bare"  # the last element, not the separator, ends the joined string
+        if isinstance(fn, ast.Attribute) and nm == "format" and _const_str(fn.value) is not None:
+            s = _const_str(fn.value)
+            return "dot" if s.endswith(".") else ("unknown" if s.endswith("}") else "bare")
+        if isinstance(fn, ast.Attribute) and nm in ("lower", "upper", "casefold", "lstrip", "removeprefix"):
+            return dot_status(repo, g, fn.value, depth + 1)
         return "unknown"
-    if isinstance(e, ast.Name) and not isinstance(f.node, ast.Lambda):
-        if e.id in f.param_names:
-            stores = [n for n in own_nodes(f.node) if isinstance(n, ast.Name) and n.id == e.id and isinstance(n.ctx, ast.Store)]
-            if stores:
-                return "unknown"
-            ann = next((p.annotation for p in f.params if p.arg == e.id), None)
+    if isinstance(e, ast.Subscript):
+        if not isinstance(e.slice, ast.Slice):
+            # element of split('.') / rsplit('.', 1) / partition: a component or a run of whole components
+            v = e.value
+            if isinstance(v, ast.Call) and _call_name(v) in ("split", "rsplit", "rpartition", "partition") and v.args and _const_str(v.args[0]) == ".":
+                if _call_name(v) in ("partition", "rpartition") and isinstance(e.slice, ast.Constant) and e.slice.value == 1:
+                    return "unknown"
+                return "bare"
+        return "unknown"
+    if isinstance(e, ast.Name):
+        if e.id in g.param_names:
+            ann = next((p.annotation for p in g.params if p.arg == e.id), None)
             if ann is not None and ({n.id for n in ast.walk(ann) if isinstance(n, ast.Name)} | {n.attr for n in ast.walk(ann) if isinstance(n, ast.Attribute)}) & NAME_ANNOTATIONS:
                 return "bare"  # a module name by its declared type
-            args = _callers_args(repo, f, e.id)
-            if args:
-                vals = {dot_status(repo, g, a, depth + 1) for g, a in args}
-                if len(vals) == 1:
-                    return vals.pop()
-                if "bare" in vals and "unknown" not in vals:
-                    return "bare"
-            return "unknown"
-        assigns = [n for n in own_nodes(f.node) if isinstance(n, ast.Assign) and any(isinstance(t, ast.Name) and t.id == e.id for t in n.targets)]
-        others = [n for n in own_nodes(f.node) if isinstance(n, ast.Name) and n.id == e.id and isinstance(n.ctx, ast.Store)]
-        if assigns and len(others) == len(assigns):
-            vals = {dot_status(repo, f, a.value, depth + 1) for a in assigns}
-            if len(vals) == 1:
-                return vals.pop()
-            return "unknown"
-        # loop / comprehension target ranging directly over a collection of names
-        for n in own_nodes(f.node):
-            its = []
-            if isinstance(n, (ast.For, ast.AsyncFor)):
-                its = [(n.target, n.iter)]
-            elif isinstance(n, ast.comprehension):
-                its = [(n.target, n.iter)]
-            for tgt, it in its:
-                if isinstance(tgt, ast.Name) and tgt.id == e.id and len(others) == 1:
-                    if isinstance(it, ast.Call) and isinstance(it.func, ast.Name) and it.func.id in ("sorted", "list", "set", "reversed", "tuple", "frozenset") and it.args:
-                        it = it.args[0]
-                    if isinstance(it, ast.Call) and isinstance(it.func, ast.Attribute) and it.func.attr == "keys":
-                        it = it.func.value
-                    if isinstance(it, ast.Call):
-                        fn = it.func
-                        if (isinstance(fn, ast.Attribute) and (fn.attr in NAME_METHODS or fn.attr in NAME_FUNCS)) or (isinstance(fn, ast.Name) and fn.id in NAME_FUNCS):
-                            return "bare"
-                    if isinstance(it, ast.Attribute) and it.attr in ("nodes", "modules"):
-                        return "bare"
-                    if isinstance(it, ast.Name) and it.id in f.param_names:
-                        ann = next((p.annotation for p in f.params if p.arg == it.id), None)
-                        txt = norm(ann) if ann is not None else ""
-                        if "str" in txt and "tuple" not in txt.lower():
-                            # a collection of plain strings handed in by the caller: names, unless built with a separator
-                            args = _callers_args(repo, f, it.id)
-                            if args and all(_collection_of_bare(repo, g, a, depth + 1) for g, a in args):
-                                return "bare"
         return "unknown"
     return "unknown"
 
 
-def _collection_of_bare(repo: Repo, f: FuncInfo, e: ast.expr, depth: int) -> bool:
-    if depth > 5:
-        return False
-    if isinstance(e, ast.Call) and isinstance(e.func, ast.Name) and e.func.id in ("sorted", "list", "set", "reversed", "tuple", "frozenset") and e.args:
-        return _collection_of_bare(repo, f, e.args[0], depth + 1)
-    if isinstance(e, ast.Call) and isinstance(e.func, ast.Attribute) and e.func.attr == "keys":
-        return True
-    if isinstance(e, ast.Attribute) and e.attr in ("nodes", "modules"):
-        return True
-    if isinstance(e, ast.Name) and not isinstance(f.node, ast.Lambda):
-        if e.id in f.param_names:
-            ann = next((p.annotation for p in f.params if p.arg == e.id), None)
-            return ann is not None and "dict" in norm(ann)
-        assigns = [n for n in own_nodes(f.node) if isinstance(n, (ast.Assign, ast.AnnAssign)) and any(isinstance(t, ast.Name) and t.id == e.id for t in (n.targets if isinstance(n, ast.Assign) else [n.target]))]
-        if len(assigns) == 1 and assigns[0].value is not None:
-            return _collection_of_bare(repo, f, assigns[0].value, depth + 1)
-    return False
+def dot_status(repo: Repo, f: FuncInfo, e: ast.expr, depth: int = 0) -> str:
+    """'dot'  - the string provably ends with '.' (every origin does),
+    'bare' - it provably is a plain module name (no origin has a separator appended),
+    'unknown' otherwise (origins disagree or cannot be followed)."""
+    if depth > 6:
+        return "unknown"
+    leaves = origins(repo).value(f, e)
+    if not leaves:
+        return "unknown"
+    vals = {_leaf_status(repo, g, x, kind, depth) for g, x, kind in leaves}
+    vals.discard("none")  # None on some path: the operation is not reached with it (it would raise)
+    if len(vals) == 1:
+        return vals.pop()
+    return "unknown"
+
+
+def needle_status(repo: Repo, f: FuncInfo, e: ast.expr) -> str:
+    """dot_status, completed by the may-analysis: a value that carries module names and into which no string ending in '.' was
+    ever concatenated (flow tag DOT absent) is a plain name."""
+    st = dot_status(repo, f, e)
+    if st == "unknown":
+        tags = set(name_flow(repo).tags(e))
+        if "DOT" not in tags and ("NAME" in tags or "COMP" in tags):
+            return "bare"
+    return st
 
 
 def _ends_with_dot(repo: Repo, f: FuncInfo, e: ast.expr, depth: int = 0) -> bool:
     return dot_status(repo, f, e, depth) == "dot"
+
+
+def _starts_with_dot(e: ast.expr) -> bool:
+    if isinstance(e, ast.Constant):
+        return isinstance(e.value, str) and e.value.startswith(".")
+    if isinstance(e, ast.JoinedStr):
+        return bool(e.values) and isinstance(e.values[0], ast.Constant) and str(e.values[0].value).startswith(".")
+    if isinstance(e, ast.BinOp) and isinstance(e.op, ast.Add):
+        return _starts_with_dot(e.left)
+    return False
+
+
+# --------------------------------------------------------------------------- local definitions (for relating two variables)
+
+
+def local_defs(repo: Repo, f: FuncInfo) -> dict[str, ast.expr]:
+    """Variables of `f` that certainly equal an expression over other variables of `f` at every use:
+    single-assignment locals, and the targets of a tuple-unpacking loop expressed through a sibling target
+    (`for m, prefix, alias in [(x, f"{x}.", a[x]) for x in ..]`  gives  prefix = f"{m}.")."""
+    key = ("local_defs", id(repo), f.fq)
+    if key in _cache:
+        return _cache[key]
+    out: dict[str, ast.expr] = {}
+    _cache[key] = out
+    if isinstance(f.node, ast.Lambda):
+        return out
+    stores: dict[str, int] = {}
+    for n in own_nodes(f.node):
+        if isinstance(n, ast.Name) and isinstance(n.ctx, ast.Store):
+            stores[n.id] = stores.get(n.id, 0) + 1
+    O = origins(repo)
+    for n in own_nodes(f.node):
+        if isinstance(n, ast.Assign) and len(n.targets) == 1 and isinstance(n.targets[0], ast.Name):
+            v = n.targets[0].id
+            if stores.get(v) == 1 and v not in f.param_names:
+                out[v] = n.value
+        tgt_it = None
+        if isinstance(n, (ast.For, ast.AsyncFor)):
+            tgt_it = (n.target, n.iter)
+        elif isinstance(n, ast.comprehension):
+            tgt_it = (n.target, n.iter)
+        if tgt_it and isinstance(tgt_it[0], ast.Tuple) and all(isinstance(x, ast.Name) for x in tgt_it[0].elts):
+            names_ = [x.id for x in tgt_it[0].elts]
+            if any(stores.get(v) != 1 for v in names_):
+                continue
+            # the tuple expressions the elements come from
+            leaves = O.elements(f, tgt_it[1])
+            if len(leaves) != 1 or leaves[0][2] != "value" or not isinstance(leaves[0][1], ast.Tuple) or len(leaves[0][1].elts) != len(names_):
+                continue
+            exprs = list(leaves[0][1].elts)
+            env = {e.id: ast.Name(id=names_[i], ctx=ast.Load()) for i, e in enumerate(exprs) if isinstance(e, ast.Name)}
+            for i, e in enumerate(exprs):
+                if isinstance(e, ast.Name):
+                    continue
+                free = {x.id for x in ast.walk(e) if isinstance(x, ast.Name) and isinstance(x.ctx, ast.Load)}
+                # only definitions that are closed over the sibling targets (and names with the same meaning in g and f)
+                if free and free <= set(env):
+                    out[names_[i]] = _substitute(e, env)
+    return out
+
+
+def _expand(repo: Repo, f: FuncInfo, e: ast.expr, depth: int = 0) -> ast.expr:
+    if depth < 4 and isinstance(e, ast.Name):
+        d = local_defs(repo, f).get(e.id)
+        if d is not None and isinstance(d, (ast.JoinedStr, ast.BinOp, ast.Name)):
+            return _expand(repo, f, d, depth + 1)
+    return e
+
+
+def _is_dotted_form(e: ast.expr, others: set[str]) -> bool:
+    """`o + "."` / f"{o}." for an o in `others`."""
+    if isinstance(e, ast.JoinedStr) and len(e.values) == 2 and isinstance(e.values[0], ast.FormattedValue) and _const_str(e.values[1]) == ".":
+        v = e.values[0].value
+        if isinstance(v, ast.Call) and _call_name(v) == "str" and len(v.args) == 1:
+            v = v.args[0]
+        return norm(v) in others and e.values[0].conversion in (-1, 115) and e.values[0].format_spec is None
+    if isinstance(e, ast.BinOp) and isinstance(e.op, ast.Add) and _const_str(e.right) == ".":
+        return norm(e.left) in others
+    return False
 
 
 def _parse_atom(text: str) -> ast.expr | None:
@@ -356,6 +983,10 @@ def _parse_atom(text: str) -> ast.expr | None:
         return ast.parse(text, mode="eval").body
     except SyntaxError:
         return None
+
+
+def _unbool(e: ast.expr | None) -> ast.expr | None:
+    return e.args[0] if isinstance(e, ast.Call) and isinstance(e.func, ast.Name) and e.func.id == "bool" and len(e.args) == 1 else e
 
 
 def _relation_atoms(repo: Repo, f: FuncInfo, formula, hay: str, others: set[str]):
@@ -374,14 +1005,14 @@ def _relation_atoms(repo: Repo, f: FuncInfo, formula, hay: str, others: set[str]
             l, r = norm(e.left), norm(e.comparators[0])
             if (l == hay and r in others) or (r == hay and l in others):
                 safe.append(mk(a))
-        inner = e.args[0] if isinstance(e, ast.Call) and isinstance(e.func, ast.Name) and e.func.id == "bool" and len(e.args) == 1 else e
+        inner = _unbool(e)
         if isinstance(inner, ast.Call) and isinstance(inner.func, ast.Attribute) and inner.func.attr == "startswith" and norm(inner.func.value) == hay and inner.args:
             nd = inner.args[0]
-            mentioned = {x.id for x in ast.walk(nd) if isinstance(x, ast.Name)} | {norm(x) for x in ast.walk(nd) if isinstance(x, ast.Attribute)}
             if norm(nd) in others:
-                st = dot_status(repo, f, nd)
+                st = dot_status(repo, f, nd) if isinstance(nd, ast.Name) else "bare"
+                # the other string itself is the prefix: only safe if that string carries the separator (then len() includes it)
                 (safe if st == "dot" else raw).append(mk(a))
-            elif mentioned & others and dot_status(repo, f, nd) == "dot":
+            elif _is_dotted_form(_expand(repo, f, nd), others):
                 safe.append(mk(a))
     return safe, raw
 
@@ -389,6 +1020,7 @@ def _relation_atoms(repo: Repo, f: FuncInfo, formula, hay: str, others: set[str]
 def _site_facts(repo: Repo, f: FuncInfo, node: ast.AST, other: str):
     """Path condition of `node` (private helper predicates inlined) plus what `X = next(v for v in .. if test(v))` establishes for X."""
     from core.guards import f_and, to_formula
+
     from .common import copy_prop, guard_formula
 
     facts = [guard_formula(f, node)]
@@ -482,13 +1114,12 @@ def _boundary_predicate(repo: Repo, f: FuncInfo, hay: str = "", needle: str = ""
     """`f` is a predicate whose truthy result implies, for every raw `H.startswith(N)` it evaluates, that the character after
     the prefix is '.' or absent (`H[len(N):] == ""`, `H[len(N):][0] == "."`, `H[len(N):].startswith(".")`, `H[len(N):][:1] in ("", ".")`)."""
     from core.guards import atom as mk, atoms_of, f_not, f_or, implies
+
     from .common import bool_inliner
 
     if isinstance(f.node, ast.Lambda):
         return False
     key = ("boundary_pred", id(repo), f.fq)
-    from .common import _cache
-
     if key in _cache:
         return _cache[key]
     inl = bool_inliner(repo)
@@ -502,7 +1133,7 @@ def _boundary_predicate(repo: Repo, f: FuncInfo, hay: str = "", needle: str = ""
         parsed = [(a, _parse_atom(a)) for a in atoms_of(s)]
         raws = []
         for a, e in parsed:
-            inner = e.args[0] if isinstance(e, ast.Call) and isinstance(e.func, ast.Name) and e.func.id == "bool" and len(e.args) == 1 else e
+            inner = _unbool(e)
             if isinstance(inner, ast.Call) and isinstance(inner.func, ast.Attribute) and inner.func.attr == "startswith" and inner.args:
                 nd = inner.args[0]
                 if not (isinstance(nd, ast.Constant) and nd.value == "."):
@@ -510,11 +1141,12 @@ def _boundary_predicate(repo: Repo, f: FuncInfo, hay: str = "", needle: str = ""
         ok = bool(raws)
         for a_raw, H, N in raws:
             rest = f"{H}[len({N}):]"
+            nxt = f"{H}[len({N})]"
             empty_t, empty_f, dot = [], [], []
             for a, e in parsed:
                 if e is None:
                     continue
-                inner = e.args[0] if isinstance(e, ast.Call) and isinstance(e.func, ast.Name) and e.func.id == "bool" and len(e.args) == 1 else e
+                inner = _unbool(e)
                 if isinstance(inner, ast.Call) and isinstance(inner.func, ast.Attribute) and inner.func.attr == "startswith" and inner.args and norm(inner.func.value) == rest and isinstance(inner.args[0], ast.Constant) and inner.args[0].value == ".":
                     dot.append(mk(a))
                 if isinstance(e, ast.Call) and isinstance(e.func, ast.Name) and e.func.id == "bool" and norm(inner) == rest:
@@ -526,6 +1158,10 @@ def _boundary_predicate(repo: Repo, f: FuncInfo, hay: str = "", needle: str = ""
                             empty_t.append(mk(a))
                         if isinstance(y, ast.Constant) and y.value == "." and isinstance(x, ast.Subscript) and norm(x.value) == rest and norm(x.slice) in ("0", ":1"):
                             dot.append(mk(a))
+                        if isinstance(y, ast.Constant) and y.value == "." and norm(x) == nxt:
+                            dot.append(mk(a))
+                        if norm(x) == H and norm(y) == N:
+                            empty_t.append(mk(a))  # H == N: nothing follows the prefix
                 if isinstance(e, ast.Compare) and len(e.ops) == 1 and isinstance(e.ops[0], ast.In) and isinstance(e.left, ast.Subscript) and norm(e.left.value) == rest and norm(e.left.slice) == ":1":
                     c = e.comparators[0]
                     if isinstance(c, (ast.Tuple, ast.List, ast.Set)) and len(c.elts) == 2 and sorted(x.value for x in c.elts if isinstance(x, ast.Constant)) == ["", "."]:
@@ -537,7 +1173,268 @@ def _boundary_predicate(repo: Repo, f: FuncInfo, hay: str = "", needle: str = ""
     return ok
 
 
+# --------------------------------------------------------------------------- user-supplied regular expressions
+
+
+def _user_regex(repo: Repo, f: FuncInfo, pat: ast.expr) -> bool:
+    """The pattern is, unmodified, the identifier of regex filters (static type ModuleNameRegexFilter): matched against names by design."""
+    if isinstance(pat, (ast.JoinedStr, ast.BinOp)):
+        return False
+    T = types_of(repo)
+    leaves = origins(repo).value(f, pat)
+    if not leaves:
+        return False
+    for g, e, kind in leaves:
+        if kind != "value":
+            return False
+        while isinstance(e, ast.Call) and (repo.resolve_name(g.module, e.func) or "") == "re.compile" and e.args:
+            sub = origins(repo).value(g, e.args[0])
+            if len(sub) != 1:
+                return False
+            g, e, kind = sub[0]
+        if not (isinstance(e, ast.Attribute) and e.attr == "identifier"):
+            return False
+        t = T.expr(g, e.value)
+        if all(m == ("unknown",) for m in members(t)) and isinstance(e.value, ast.Name) and isinstance(g.node, ast.Lambda):
+            it = _lambda_iterable(g)
+            if it is not None:
+                t = elem_type(T.expr(g.outer, it))
+        ms = members(t)
+        if not ms or not all(m[0] == "cls" and m[1].rsplit(".", 1)[-1] == REGEX_FILTER for m in ms):
+            return False
+    return True
+
+
+# --------------------------------------------------------------------------- cutting a name at an index
+
+
+def _strip_offset(e: ast.expr) -> tuple[ast.expr, int | None]:
+    """(core, k) for `core + k` / `core - k` / `k + core`, k an int constant; (e, 0) otherwise."""
+    if isinstance(e, ast.BinOp) and isinstance(e.op, (ast.Add, ast.Sub)):
+        l, r = e.left, e.right
+        if isinstance(r, ast.Constant) and isinstance(r.value, int):
+            return l, r.value if isinstance(e.op, ast.Add) else -r.value
+        if isinstance(l, ast.Constant) and isinstance(l.value, int) and isinstance(e.op, ast.Add):
+            return r, l.value
+        return e, None
+    return e, 0
+
+
+def _loop_binding(f: FuncInfo, name: str):
+    """(target, iter, owner) of the for statement / comprehension generator that binds `name`, if it is bound exactly once."""
+    if isinstance(f.node, ast.Lambda):
+        return None
+    stores = [n for n in own_nodes(f.node) if isinstance(n, ast.Name) and n.id == name and isinstance(n.ctx, ast.Store)]
+    if len(stores) != 1 or name in f.param_names:
+        return None
+    for n in own_nodes(f.node):
+        if isinstance(n, (ast.For, ast.AsyncFor, ast.comprehension)) and any(x is stores[0] for x in ast.walk(n.target)):
+            return n.target, n.iter, n
+    return None
+
+
+def _found_guard(repo: Repo, f: FuncInfo, node: ast.AST, hay: str, index_texts: set[str]) -> bool:
+    """The path condition of `node` implies that the searched separator was found (index != -1 / '.' in name)."""
+    from core.guards import atom as mk, atoms_of, f_not, f_or, implies
+
+    from .common import guard_formula
+
+    facts = guard_formula(f, node)
+    pos, neg = [], []
+    for a in atoms_of(facts):
+        e = _unbool(_parse_atom(a))
+        if e is None:
+            continue
+        if isinstance(e, ast.Compare) and len(e.ops) == 1:
+            l, op, r = e.left, e.ops[0], e.comparators[0]
+            if isinstance(op, ast.In) and _const_str(l) == "." and norm(r) == hay:
+                pos.append(mk(a))
+                continue
+            for x, y, flip in ((l, r, False), (r, l, True)):
+                if norm(x) in index_texts and isinstance(y, (ast.Constant, ast.UnaryOp)):
+                    try:
+                        k = ast.literal_eval(y)
+                    except Exception:  # noqa: BLE001
+                        continue
+                    if not isinstance(k, int):
+                        continue
+                    o = type(op)
+                    if flip:
+                        o = {ast.Lt: ast.Gt, ast.Gt: ast.Lt, ast.LtE: ast.GtE, ast.GtE: ast.LtE}.get(o, o)
+                    if (o is ast.GtE and k >= 0) or (o is ast.Gt and k >= -1):
+                        pos.append(mk(a))
+                    elif (o is ast.Eq and k == -1) or (o is ast.Lt and k <= 0) or (o is ast.LtE and k <= -1):
+                        neg.append(mk(a))
+        elif isinstance(e, ast.Call) and _call_name(e) == "count" and isinstance(e.func, ast.Attribute) and norm(e.func.value) == hay and e.args and _const_str(e.args[0]) == ".":
+            pos.append(mk(a))  # truthiness of name.count('.')
+    goal = f_or([*pos, *[f_not(x) for x in neg]])
+    try:
+        return bool(pos or neg) and implies(facts, goal)
+    except AnalysisError:
+        return False
+
+
+def _index_cut(repo: Repo, f: FuncInfo, node: ast.Subscript, bound: ast.expr, is_upper: bool) -> tuple[str, str]:
+    """Verdict for `name[:bound]` / `name[bound:]` where bound is neither a constant nor a len(): the cut must be at a separator."""
+    hay = norm(node.value)
+    texts = {norm(bound)}
+    core, off = _strip_offset(bound)
+    if isinstance(core, ast.Name):
+        d = local_defs(repo, f).get(core.id)
+        if d is not None:
+            texts.add(core.id)
+            c2, o2 = _strip_offset(d)
+            if off is not None and o2 is not None:
+                core, off = c2, off + o2
+                texts.add(norm(core))
+    if isinstance(core, ast.Call) and isinstance(core.func, ast.Attribute) and core.func.attr in SEARCH_METHODS and core.args:
+        same = norm(core.func.value) == hay
+        texts.add(norm(core))
+        if _const_str(core.args[0]) != ".":
+            return "unsafe", f"`{norm(node, 60)}` cuts a module name where another string occurs in it, not at a component boundary"
+        if not same:
+            return "unknown", f"`{norm(node, 60)}`: the index was searched in another string (`{norm(core.func.value, 30)}`)"
+        if core.func.attr in ("index", "rindex"):
+            return ("safe", "cut at the position of a separator (index raises when there is none)") if off in (0, 1) else ("unknown", f"`{norm(node, 60)}`: offset {off} from the separator")
+        if off == 1:
+            return "safe", "cut one past the separator found by find/rfind (position 0 when there is none: the whole name)"
+        if off == 0:
+            if _found_guard(repo, f, node, hay, texts):
+                return "safe", "cut at the separator found by find/rfind, reached only when one was found"
+            return "unsafe", f"`{norm(node, 60)}`: {core.func.attr}('.') is -1 for a name without separator, the slice then cuts off its last character - the name is walked through its raw string prefixes"
+        return "unknown", f"`{norm(node, 60)}`: offset {off} from the separator"
+    if isinstance(core, ast.Name) and off is not None:
+        lb = _loop_binding(f, core.id)
+        if lb is not None:
+            tgt, it, owner = lb
+            char_var = None
+            positions = False
+            if isinstance(it, ast.Call) and _call_name(it) == "enumerate" and it.args and norm(it.args[0]) == hay and isinstance(tgt, ast.Tuple) and len(tgt.elts) == 2 and isinstance(tgt.elts[0], ast.Name) and tgt.elts[0].id == core.id:
+                positions = True
+                if isinstance(tgt.elts[1], ast.Name):
+                    char_var = tgt.elts[1].id
+            elif isinstance(it, ast.Call) and _call_name(it) == "range" and any(isinstance(c, ast.Call) and _call_name(c) == "len" and c.args and norm(c.args[0]) == hay for a in it.args for c in ast.walk(a)) and isinstance(tgt, ast.Name):
+                positions = True
+            if positions:
+                from core.guards import atom as mk, atoms_of, f_or, implies
+
+                from .common import guard_formula
+
+                facts = guard_formula(f, node)
+                good = []
+                for a in atoms_of(facts):
+                    e = _parse_atom(a)
+                    if isinstance(e, ast.Compare) and len(e.ops) == 1 and isinstance(e.ops[0], ast.Eq):
+                        sides = {norm(e.left), norm(e.comparators[0])}
+                        if ("'.'" in sides or '"."' in sides) and (sides & ({char_var} if char_var else set()) or f"{hay}[{core.id}]" in sides):
+                            good.append(mk(a))
+                if good and off in (0, 1) and implies(facts, f_or(good)):
+                    return "safe", "cut at a character position that holds the separator"
+                return "unsafe", f"`{norm(node, 60)}`: every character position of the name is a cut point (no test that the position holds '.')"
+    return "unknown", f"`{norm(node, 60)}`: cannot establish that the index `{norm(bound, 30)}` is the position of a separator"
+
+
+def _len_bound(repo: Repo, f: FuncInfo, b: ast.expr | None) -> ast.Call | None:
+    """The len(..) call a slice bound is computed from (directly or through a single-assignment local)."""
+    if b is None:
+        return None
+    for c in ast.walk(b):
+        if isinstance(c, ast.Call) and isinstance(c.func, ast.Name) and c.func.id == "len":
+            return c
+    core, off = _strip_offset(b)
+    if isinstance(core, ast.Name):
+        d = local_defs(repo, f).get(core.id)
+        if d is not None:
+            for c in ast.walk(d):
+                if isinstance(c, ast.Call) and isinstance(c.func, ast.Name) and c.func.id == "len":
+                    return c
+    return None
+
+
+def _slice_by_len(repo: Repo, f: FuncInfo, n: ast.Subscript, other_e: ast.expr, boundary_funcs: set[str], depth: int = 0) -> tuple[str, str]:
+    from core.guards import f_or, implies
+
+    other = norm(other_e)
+    hay = norm(n.value)
+    facts, others = _site_facts(repo, f, n, other)
+    safe_a, raw_a = _relation_atoms(repo, f, facts, hay, others)
+    try:
+        if safe_a and implies(facts, f_or(safe_a)):
+            return "safe", "prefix length of an ancestor established by a boundary-safe test"
+        if _ancestor_or_self(repo, f, other_e, hay):
+            return "safe", "the other string is the name itself or one of its ancestors (get_parent_modules)"
+        if f.fq in boundary_funcs or _boundary_predicate(repo, f, hay, other):
+            return "safe", "the remainder is only examined by the boundary test of this predicate"
+        if raw_a and implies(facts, f_or([*safe_a, *raw_a])):
+            return "unsafe", f"`{norm(n, 60)}` cuts a module name at the length of another string without a boundary-safe prefix test"
+    except AnalysisError:
+        pass
+    # the relation may have been established by the callers of a small helper: `label = alias + _rest(name, ancestor)`
+    if depth < 2 and not isinstance(f.node, ast.Lambda) and isinstance(n.value, ast.Name) and isinstance(other_e, ast.Name) and n.value.id in f.param_names and other_e.id in f.param_names:
+        ha, oa = _callers_args(repo, f, n.value.id), _callers_args(repo, f, other_e.id)
+        if ha and oa and len(ha) == len(oa):
+            verdicts = []
+            for (g, h_expr), (g2, o_expr) in zip(ha, oa):
+                if g is not g2 or isinstance(h_expr, ast.Starred) or isinstance(o_expr, ast.Starred):
+                    verdicts.append("unknown")
+                    continue
+                call = next((c for c in calls_in(g.node) if any(a is h_expr for a in [*c.args, *[k.value for k in c.keywords]])), None)
+                if call is None:
+                    verdicts.append("unknown")
+                    continue
+                pseudo = ast.Subscript(value=h_expr, slice=ast.Slice(lower=ast.Call(func=ast.Name(id="len", ctx=ast.Load()), args=[o_expr], keywords=[]), upper=None, step=None), ctx=ast.Load())
+                pseudo._site = call  # type: ignore[attr-defined]
+                v, _w = _slice_by_len_at(repo, g, call, h_expr, o_expr, boundary_funcs, depth + 1)
+                verdicts.append(v)
+            if verdicts and all(v == "safe" for v in verdicts):
+                return "safe", "every caller establishes the boundary-safe prefix relation before the cut"
+            if any(v == "unsafe" for v in verdicts):
+                return "unsafe", f"`{norm(n, 60)}` cuts a module name at the length of another string; a caller establishes only a raw prefix relation"
+    return "unknown", f"`{norm(n, 60)}`: no test relating `{hay}` and `{other}` found on the paths to this slice"
+
+
+def _slice_by_len_at(repo: Repo, g: FuncInfo, at: ast.AST, hay_e: ast.expr, other_e: ast.expr, boundary_funcs: set[str], depth: int) -> tuple[str, str]:
+    """_slice_by_len for a cut that happens inside a callee: the facts are those at the call `at` in `g`."""
+    from core.guards import f_or, implies
+
+    other, hay = norm(other_e), norm(hay_e)
+    facts, others = _site_facts(repo, g, at, other)
+    safe_a, raw_a = _relation_atoms(repo, g, facts, hay, others)
+    try:
+        if safe_a and implies(facts, f_or(safe_a)):
+            return "safe", ""
+        if _ancestor_or_self(repo, g, other_e, hay):
+            return "safe", ""
+        if raw_a and implies(facts, f_or([*safe_a, *raw_a])):
+            return "unsafe", ""
+    except AnalysisError:
+        pass
+    return "unknown", ""
+
+
+# --------------------------------------------------------------------------- the scan
+
+
+def _zip_in_all(call: ast.Call) -> bool:
+    """zip(..) is the iterable of the generator inside all(..): an element-wise equality test."""
+    p = parent(call)
+    if not isinstance(p, ast.comprehension) or p.iter is not call:
+        return False
+    comp = parent(p)
+    if not isinstance(comp, (ast.GeneratorExp, ast.ListComp)):
+        return False
+    outer = parent(comp)
+    return isinstance(outer, ast.Call) and _call_name(outer) == "all" and isinstance(comp.elt, ast.Compare) and all(isinstance(o, ast.Eq) for o in comp.elt.ops)
+
+
 def scan(repo: Repo) -> list[Site]:
+    key = ("name_sites", id(repo))
+    if key not in _cache:
+        _cache[key] = _scan(repo)
+    return list(_cache[key])
+
+
+def _scan(repo: Repo) -> list[Site]:
     T = types_of(repo)
     flow = name_flow(repo)
     sites: list[Site] = []
@@ -550,7 +1447,7 @@ def scan(repo: Repo) -> list[Site]:
         reviewed = REVIEWED_PATTERN_SITES.get((f.module.name, f.qualname))
         for n in own_nodes(f.node):
             # ---- method-style operations
-            if isinstance(n, ast.Call) and isinstance(n.func, ast.Attribute) and n.func.attr in STR_REL_METHODS and n.args:
+            if isinstance(n, ast.Call) and isinstance(n.func, ast.Attribute) and (n.func.attr in STR_REL_METHODS or n.func.attr in ("split", "rsplit")) and n.args:
                 hay, needle, op = n.func.value, n.args[0], n.func.attr
                 s = _is_str(T, f, hay)
                 if s is False:
@@ -558,10 +1455,18 @@ def scan(repo: Repo) -> list[Site]:
                 tags = tagged(hay)
                 is_name = "NAME" in tags
                 if not is_name:
-                    sites.append(Site(f, n, op, hay, needle, False, "not-name" if s else "unclassified", f"haystack `{norm(hay, 40)}` is not derived from a module name" if s else "provenance of the haystack unknown"))
+                    if op not in ("split", "rsplit"):
+                        sites.append(Site(f, n, op, hay, needle, False, "not-name" if s else "unclassified", f"haystack `{norm(hay, 40)}` is not derived from a module name" if s else "provenance of the haystack unknown"))
                     continue
+                const = _const_str(needle)
+                group = "relation"
                 if op in ("startswith", "removeprefix"):
-                    st = dot_status(repo, f, needle)
+                    if const is not None and not const.endswith("."):
+                        sites.append(Site(f, n, op, hay, needle, True, "not-name", f"constant prefix {const!r}: a lexical test, not a relation between two module names"))
+                        continue
+                    parts = needle.elts if isinstance(needle, ast.Tuple) else [needle]
+                    sts = {needle_status(repo, f, p) for p in parts}
+                    st = sts.pop() if len(sts) == 1 else ("bare" if "bare" in sts else "unknown")
                     safe = st == "dot" or _boundary_companion(f, n, hay, needle)
                     why = "prefix ends in '.' (whole dotted components)" if safe else f"`{norm(n, 80)}`: raw string prefix test on a module name - 'pkg.ab' counts as part of 'pkg.a'"
                     if not safe and _boundary_predicate(repo, f, norm(hay), norm(needle)):
@@ -571,31 +1476,84 @@ def scan(repo: Repo) -> list[Site]:
                         sites.append(Site(f, n, op, hay, needle, True, "unknown", f"`{norm(n, 80)}`: cannot establish whether the prefix `{norm(needle, 40)}` ends with the separator '.'"))
                         continue
                 elif op in ("endswith", "removesuffix"):
-                    safe = isinstance(needle, (ast.Constant, ast.JoinedStr)) and (norm(needle).strip("f'\"").startswith("."))
+                    if const is not None and not const.startswith("."):
+                        sites.append(Site(f, n, op, hay, needle, True, "not-name", f"constant suffix {const!r}: a lexical test, not a relation between two module names"))
+                        continue
+                    safe = _starts_with_dot(_expand(repo, f, needle))
                     why = "suffix starts at a '.' boundary" if safe else f"`{norm(n, 80)}`: raw string suffix test on a module name"
-                elif op in ("count", "find", "index", "rfind", "rindex", "partition", "rpartition"):
-                    safe = isinstance(needle, ast.Constant) and needle.value == "."
-                    why = "only the separator '.' is searched" if safe else f"`{norm(n, 80)}`: substring search inside a module name ignores component boundaries"
+                elif op in ("count", "find", "index", "rfind", "rindex", "partition", "rpartition", "split", "rsplit"):
+                    safe = const == "."
+                    if const is not None:
+                        group = "separator"
+                        why = "only the separator '.' is searched" if safe else f"`{norm(n, 80)}`: a module name is cut / searched at {const!r}, not at the separator '.'"
+                    else:
+                        why = f"`{norm(n, 80)}`: substring search inside a module name ignores component boundaries"
                 else:  # replace
-                    safe = isinstance(needle, ast.Constant) and not ("NAME" in tagged(needle))
+                    ntags = tagged(needle)
+                    if const is None and "NAME" not in ntags:
+                        sites.append(Site(f, n, op, hay, needle, True, "not-name", "replaces a non-name string"))
+                        continue
+                    safe = const is not None and "NAME" not in ntags
                     why = "replaces a constant" if safe else f"`{norm(n, 80)}`: str.replace substitutes every occurrence of one module name inside another, not a leading run of whole components"
-                sites.append(Site(f, n, op, hay, needle, True, "safe" if safe else "unsafe", why))
+                sites.append(Site(f, n, op, hay, needle, True, "safe" if safe else "unsafe", why, group))
+            # ---- joining components
+            elif isinstance(n, ast.Call) and isinstance(n.func, ast.Attribute) and n.func.attr == "join" and len(n.args) == 1 and _const_str(n.func.value) is not None:
+                arg = n.args[0]
+                comp = arg if isinstance(arg, (ast.GeneratorExp, ast.ListComp)) else None
+                elt = comp.elt if comp is not None else None
+                if comp is None:
+                    if "PARTS" not in tagged(arg):
+                        continue
+                elif "COMP" not in tagged(elt):
+                    continue
+                sep = _const_str(n.func.value)
+                decorated = elt is not None and (_starts_with_dot(elt) or dot_status(repo, f, elt) == "dot")
+                if comp is not None and not isinstance(elt, ast.Name) and not decorated:
+                    continue  # text built from components (a message), not a name
+                if sep == "." and not decorated:
+                    verdict, why = "safe", "components are joined with the separator '.'"
+                elif sep == "" and decorated:
+                    verdict, why = "safe", "every joined component carries its separator '.'"
+                else:
+                    verdict, why = "unsafe", f"`{norm(n, 80)}`: the components of a module name are joined with {sep!r}, not with the separator '.'"
+                sites.append(Site(f, n, "join", n.args[0], n.func.value, True, verdict, why, "separator"))
+            # ---- component-wise comparison through zip
+            elif isinstance(n, ast.Call) and isinstance(n.func, ast.Name) and n.func.id == "zip" and len(n.args) == 2 and _zip_in_all(n):
+                if not all("PARTS" in tagged(a) for a in n.args):
+                    continue
+                strict = any(k.arg == "strict" and isinstance(k.value, ast.Constant) and k.value.value is True for k in n.keywords)
+                texts = set()
+                for a in n.args:
+                    texts.add(norm(a))
+                    d = _expand(repo, f, a)
+                    texts.add(norm(d))
+                lens = False
+                for c in own_nodes(f.node):
+                    if isinstance(c, ast.Compare) and len(c.ops) == 1:
+                        sides = [c.left, c.comparators[0]]
+                        got = [any(isinstance(x, ast.Call) and _call_name(x) == "len" and x.args and norm(x.args[0]) in texts for x in ast.walk(sd)) for sd in sides]
+                        if all(got):
+                            lens = True
+                if strict or lens:
+                    verdict, why = "safe", "component lists compared element-wise, their lengths separately"
+                else:
+                    verdict, why = "unsafe", f"`{norm(n, 80)}`: zip stops at the shorter component list - a proper ancestor ('pkg' for the prefix 'pkg.core') compares equal, the prefix relation holds in both directions"
+                sites.append(Site(f, n, "zip-components", n.args[0], n.args[1], True, verdict, why, "extent"))
             # ---- substring containment
             elif isinstance(n, ast.Compare) and len(n.ops) == 1 and isinstance(n.ops[0], (ast.In, ast.NotIn)):
                 needle, hay = n.left, n.comparators[0]
                 s = _is_str(T, f, hay)
-                if s is False:
-                    continue
+                if s is False or isinstance(hay, ast.Constant):
+                    continue  # (membership of a character in a constant set of characters: see char-compare)
                 tags = tagged(hay)
-                if s is None and "NAME" not in tags:
-                    continue
-                # a NAME-tagged value of unknown static type may be a collection of names: decide by how it was built
                 if s is None:
-                    t = T.expr(f, hay)
-                    continue
+                    continue  # a NAME-tagged value of unknown static type may be a collection of names
                 if "NAME" in tags or "NAME" in tagged(needle):
-                    if isinstance(needle, ast.Constant) and needle.value == ".":
-                        sites.append(Site(f, n, "in", hay, needle, True, "safe", "tests for the separator only"))
+                    if isinstance(needle, ast.Constant) and isinstance(needle.value, str):
+                        ok = needle.value == "."
+                        sites.append(Site(f, n, "in", hay, needle, True, "safe" if ok else "not-name", "tests for the separator only" if ok else f"constant {needle.value!r} searched in a name: a lexical test, not a relation between two module names", "separator" if ok else "relation"))
+                    elif "NAME" not in tags and _is_str(T, f, needle) is not True:
+                        continue
                     else:
                         sites.append(Site(f, n, "in", hay, needle, True, "unsafe", f"`{norm(n, 80)}`: substring test between strings where a module name is involved ('pkg.a' in 'pkg.ab.c' is true)"))
                 else:
@@ -609,13 +1567,16 @@ def scan(repo: Repo) -> list[Site]:
                 ptags = tagged(pat)
                 if isinstance(pat, ast.Constant):
                     continue
+                if "NAME" in ptags and _user_regex(repo, f, pat):
+                    sites.append(Site(f, n, fq, n.args[1] if len(n.args) > 1 else None, pat, True, "reviewed", "the pattern is the identifier of a regex filter (ModuleNameRegexFilter): a user-supplied regex matched against names by design"))
+                    continue
                 if reviewed:
                     sites.append(Site(f, n, fq, n.args[1] if len(n.args) > 1 else None, pat, True, "reviewed", reviewed))
                     continue
                 if "NAME" in ptags:
                     sites.append(Site(f, n, fq, n.args[-1], pat, True, "unsafe", f"`{norm(n, 80)}`: a regular expression is built from an un-escaped module name ('.' matches any character; no component boundary)"))
                 elif "ESC:NAME" in ptags:
-                    text = norm(pat)
+                    text = norm(_expand(repo, f, pat))
                     safe = "(\\.|$)" in text or "(\\\\.|$)" in text or "\\." in text
                     sites.append(Site(f, n, fq, n.args[-1], pat, True, "safe" if safe else "unsafe", "escaped name followed by a component boundary" if safe else f"`{norm(n, 80)}`: escaped module name without a trailing component boundary"))
                 elif ptags & {"REGEX"}:
@@ -623,30 +1584,55 @@ def scan(repo: Repo) -> list[Site]:
                 else:
                     # pattern built from constants / non-name values
                     sites.append(Site(f, n, fq, n.args[-1] if len(n.args) > 1 else None, pat, False, "not-name", "pattern is not derived from a module name"))
-            # ---- slicing by len(other) on a name
-            elif isinstance(n, ast.Subscript) and isinstance(n.slice, ast.Slice) and "NAME" in tagged(n.value):
-                lens = [c for c in ast.walk(n.slice) if isinstance(c, ast.Call) and isinstance(c.func, ast.Name) and c.func.id == "len"]
-                if lens and _is_str(T, f, n.value) is not False:
-                    other_e = lens[0].args[0] if lens[0].args else None
-                    other = norm(other_e) if other_e is not None else ""
-                    hay = norm(n.value)
-                    if other_e is not None and _is_str(T, f, other_e) is False:
+            # ---- slicing a name
+            elif isinstance(n, ast.Subscript) and isinstance(n.slice, ast.Slice) and isinstance(n.ctx, ast.Load) and "NAME" in tagged(n.value):
+                s = _is_str(T, f, n.value)
+                if s is False:
+                    continue
+                bounds = [(n.slice.lower, False), (n.slice.upper, True)]
+                by_len = next((c for b, _u in bounds for c in [_len_bound(repo, f, b)] if c is not None), None)
+                if by_len is not None:
+                    other_e = by_len.args[0] if by_len.args else None
+                    if other_e is None or _is_str(T, f, other_e) is False:
                         continue  # length of a component list, not of a string
-                    from core.guards import f_or, implies
-
-                    facts, others = _site_facts(repo, f, n, other)
-                    safe_a, raw_a = _relation_atoms(repo, f, facts, hay, others)
-                    if safe_a and implies(facts, f_or(safe_a)):
-                        verdict, why = "safe", "prefix length of an ancestor established by a boundary-safe test"
-                    elif other_e is not None and _ancestor_or_self(repo, f, other_e, hay):
-                        verdict, why = "safe", "the other string is the name itself or one of its ancestors (get_parent_modules)"
-                    elif f.fq in boundary_funcs or _boundary_predicate(repo, f, hay, other):
-                        verdict, why = "safe", "the remainder is only examined by the boundary test of this predicate"
-                    elif raw_a and implies(facts, f_or([*safe_a, *raw_a])):
-                        verdict, why = "unsafe", f"`{norm(n, 60)}` cuts a module name at the length of another string without a boundary-safe prefix test"
-                    else:
-                        verdict, why = "unknown", f"`{norm(n, 60)}`: no test relating `{hay}` and `{other}` found on the paths to this slice"
-                    sites.append(Site(f, n, "slice-by-len", n.value, lens[0], True, verdict, why))
+                    if norm(other_e) == norm(n.value):
+                        continue  # relative to the own length
+                    verdict, why = _slice_by_len(repo, f, n, other_e, boundary_funcs)
+                    sites.append(Site(f, n, "slice-by-len", n.value, by_len, True, verdict, why))
+                    continue
+                if s is not True or "PARTS" in tagged(n.value):
+                    continue
+                for b, is_upper in bounds:
+                    if b is None:
+                        continue
+                    try:
+                        ast.literal_eval(b)
+                        continue  # constant bound
+                    except Exception:  # noqa: BLE001
+                        pass
+                    verdict, why = _index_cut(repo, f, n, b, is_upper)
+                    sites.append(Site(f, n, "slice-by-index", n.value, b, True, verdict, why))
+                    break
+            # ---- characters of a name compared with constants
+            elif isinstance(n, (ast.For, ast.AsyncFor, ast.comprehension)):
+                it = n.iter
+                if isinstance(it, ast.Call) and _call_name(it) == "enumerate" and it.args:
+                    tgt = n.target.elts[1] if isinstance(n.target, ast.Tuple) and len(n.target.elts) == 2 else None
+                    it = it.args[0]
+                else:
+                    tgt = n.target
+                if not isinstance(tgt, ast.Name) or "NAME" not in tagged(it) or _is_str(T, f, it) is not True:
+                    continue
+                for c in own_nodes(f.node):
+                    if isinstance(c, ast.Compare) and len(c.ops) == 1 and any(isinstance(x, ast.Name) and x.id == tgt.id for x in (c.left, c.comparators[0])):
+                        other = c.comparators[0] if isinstance(c.left, ast.Name) and c.left.id == tgt.id else c.left
+                        k = _const_str(other)
+                        if k is None and isinstance(other, (ast.Tuple, ast.List, ast.Set)) and all(_const_str(x) is not None for x in other.elts):
+                            k = "".join(sorted({_const_str(x) for x in other.elts}))
+                        if k is None:
+                            continue
+                        ok = k == "."
+                        sites.append(Site(f, c, "char-compare", it, other, True, "safe" if ok else "unsafe", "characters of the name are compared with the separator '.' only" if ok else f"`{norm(c, 60)}`: characters of a module name are compared with {k!r} - names are cut at other characters than '.'", "separator"))
     return sites
 
 
@@ -671,13 +1657,17 @@ def fixture_selfcheck() -> str:
         by_fn: dict[str, set[str]] = {}
         for s_ in sites:
             if s_.name_typed:
-                by_fn.setdefault(s_.fi.name, set()).add(s_.verdict)
+                top = s_.fi
+                while top.outer is not None:
+                    top = top.outer
+                by_fn.setdefault(top.name, set()).add(s_.verdict)
         tree = ast.parse(fx.read_text())
-        want_unsafe = [n.name for n in tree.body if isinstance(n, ast.FunctionDef) and n.name.startswith("unsafe_")]
-        want_safe = [n.name for n in tree.body if isinstance(n, ast.FunctionDef) and (n.name.startswith("safe_") or n.name.startswith("_safe_"))]
-        bad = [n for n in want_unsafe if "unsafe" not in by_fn.get(n, set())] + [n for n in want_safe if by_fn.get(n, set()) - {"safe"}]
+        defs = [n for c in [tree, *[c for c in tree.body if isinstance(c, ast.ClassDef)]] for n in c.body if isinstance(n, ast.FunctionDef)]
+        want_unsafe = [n.name for n in defs if n.name.startswith("unsafe_")]
+        want_safe = [n.name for n in defs if n.name.startswith("safe_") or n.name.startswith("_safe_")]
+        bad = [n for n in want_unsafe if "unsafe" not in by_fn.get(n, set())] + [n for n in want_safe if by_fn.get(n, set()) - {"safe", "not-name", "reviewed"}]
         if bad:
-            raise AnalysisError(f"F-NAME fixture: idioms not classified as expected: {bad} (got {{k: sorted(v) for k, v in by_fn.items()}})".replace("{{", "{").replace("}}", "}"))
+            raise AnalysisError(f"F-NAME fixture: idioms not classified as expected: {bad} (got { {k: sorted(v) for k, v in by_fn.items() if k in bad} })")
         return f"{len(want_unsafe)} unsafe and {len(want_safe)} safe idioms of engine/fixtures/name_ops.py classified as expected"
     finally:
         shutil.rmtree(tmp, ignore_errors=True)
